@@ -36,6 +36,11 @@ Proof.
   vm_compute. tauto.
 Qed.
 
+(* xmpp_stanza_to_text renders the stanza it is given as the top of the output: the xmlns of the argument's own
+   parent (which is not part of the output) is not consulted *)
+Lemma render_root_top_ok : render_root_is_top = true.
+Proof. reflexivity. Qed.
+
 Lemma esc_table_eq : esc_table = xml_escape_table. Proof. apply Gen_stanza_ok. Qed.
 Lemma formats_eq : render_formats = expected_formats. Proof. apply Gen_stanza_ok. Qed.
 
@@ -1294,6 +1299,43 @@ Qed.
 (* ---- attributes ---- *)
 Definition attr_str (kv : bstr * bstr) : bstr := 32 :: fst kv ++ 61 :: 34 :: xml_escape (snd kv) ++ [34].
 
+Lemma span_ws_one : forall c r, is_ws c = false -> span is_ws (32 :: c :: r) = ([32], c :: r).
+Proof. intros c r H. cbn [span]. change (is_ws 32) with true. cbn [span]. rewrite H. reflexivity. Qed.
+
+Lemma p_attrs_S : forall f s,
+  p_attrs (S f) s =
+  let (ws, s1) := span is_ws s in
+  match s1 with
+  | [] => None
+  | c :: _ =>
+      if name_byte c then
+        match ws with
+        | [] => None
+        | _ :: _ =>
+            let (k, s2) := span name_byte s1 in
+            match s2 with
+            | 61 :: 34 :: s3 =>
+                let (raw, s4) := span (fun c => negb (c =? 34)) s3 in
+                match s4 with
+                | 34 :: s5 =>
+                    if has 60 raw then None else
+                    match unescape raw with
+                    | None => None
+                    | Some v =>
+                        match p_attrs f s5 with
+                        | None => None
+                        | Some (l, rest) => Some ((k, v) :: l, rest)
+                        end
+                    end
+                | _ => None
+                end
+            | _ => None
+            end
+        end
+      else Some ([], s1)
+  end.
+Proof. reflexivity. Qed.
+
 Lemma p_attrs_render : forall L Y fuel,
   (forall k v, In (k, v) L -> good_name k) ->
   (exists c Y', Y = c :: Y' /\ is_ws c = false /\ name_byte c = false) ->
@@ -1309,18 +1351,559 @@ Proof.
     assert (W0 : is_ws k0 = false).
     { destruct (is_ws k0) eqn:W0; [|reflexivity]. unfold name_byte in NB0. rewrite W0 in NB0. cbn in NB0. discriminate. }
     set (tl := flat_map attr_str L ++ c :: Y').
-    replace (flat_map attr_str ((k0 :: kr, v) :: L) ++ c :: Y')
-      with (32 :: (k0 :: kr) ++ 61 :: 34 :: xml_escape v ++ [34] ++ tl).
-    2:{ cbn [flat_map]. unfold attr_str at 2. cbn [fst snd]. unfold tl.
-        cbn [app]. rewrite <- !app_assoc. cbn [app]. rewrite <- !app_assoc. reflexivity. }
-    cbn [p_attrs]. cbn [span]. replace (is_ws 32) with true by reflexivity.
-    cbn [span app]. rewrite W0. rewrite NB0.
+    match goal with |- p_attrs _ ?X = _ =>
+      replace X with (32 :: (k0 :: kr) ++ 61 :: 34 :: xml_escape v ++ [34] ++ tl) end.
+    2:{ unfold tl. cbn [flat_map]. unfold attr_str. cbn [fst snd app].
+        rewrite <- !app_assoc. cbn [app]. rewrite <- !app_assoc. reflexivity. }
+    rewrite p_attrs_S. cbn [app]. rewrite span_ws_one by exact W0. cbv beta iota. rewrite NB0.
     rewrite app_comm_cons.
     rewrite (span_app_stop name_byte (k0 :: kr)); [|exact GK|reflexivity].
-    destruct (escape_no_special v) as (E1 & E2 & E3).
+    destruct (escape_no_special v) as (E1 & E2 & E3). unfold c_lt, c_gt, c_quot in E1, E2, E3.
     rewrite (span_app_stop (fun c0 => negb (c0 =? 34)) (xml_escape v));
       [|apply has_false_forallb; exact E3|reflexivity].
     cbn [app]. rewrite E1. rewrite unescape_escape.
     unfold tl. rewrite IH; [reflexivity| |exists c, Y'; auto|cbn in HF; lia].
     intros k' v' HI. apply (G k' v'). right. exact HI.
 Qed.
+
+(* ---- keys of a well-formed table are pairwise distinct ---- *)
+Lemma NoDup_app_intro : forall A (a b : list A), NoDup a -> NoDup b -> (forall x, In x a -> ~ In x b) -> NoDup (a ++ b).
+Proof.
+  induction a as [|x a IH]; intros b Ha Hb D; [exact Hb|].
+  inversion Ha as [|? ? N1 N2]; subst. cbn [app]. constructor.
+  - rewrite in_app_iff. intros [H|H]; [exact (N1 H)|]. exact (D x (or_introl eq_refl) H).
+  - apply IH; [exact N2|exact Hb|]. intros y Hy. apply D. right. exact Hy.
+Qed.
+
+Lemma NoDup_concat_tagged : forall (ls : list (list bstr)) (g : bstr -> nat) off,
+  (forall i x, (i < length ls)%nat -> In x (nth i ls []) -> g x = (off + i)%nat) ->
+  (forall i, (i < length ls)%nat -> NoDup (nth i ls [])) ->
+  NoDup (concat ls).
+Proof.
+  induction ls as [|l ls IH]; intros g off T N; [constructor|].
+  cbn [concat]. apply NoDup_app_intro.
+  - apply (N 0%nat). cbn. lia.
+  - apply (IH g (S off)).
+    + intros i x Hi Hx. rewrite (T (S i) x); [lia|cbn; lia|exact Hx].
+    + intros i Hi. apply (N (S i)). cbn. lia.
+  - intros x Hx Hc. apply in_concat in Hc. destruct Hc as (l' & Hl & Hx').
+    apply In_nth with (d := []) in Hl. destruct Hl as (i & Hi & E).
+    pose proof (T 0%nat x ltac:(cbn; lia) Hx) as T0.
+    pose proof (T (S i) x ltac:(cbn; lia)) as T1. cbn [nth] in T1. rewrite E in T1. specialize (T1 Hx'). lia.
+Qed.
+
+Lemma hash_keys_nodup : forall t, htable_ok t -> NoDup (hash_keys t).
+Proof.
+  intros t (H1 & H2 & H3). unfold hash_keys, hash_items. rewrite concat_map.
+  apply (NoDup_concat_tagged _ (fun k => Z.to_nat (hash_key t k)) 0%nat).
+  - intros i x Hi Hx. rewrite map_length in Hi.
+    assert (EQ : nth i (map (map fst) (h_entries t)) [] = map fst (nth i (h_entries t) []))
+      by exact (map_nth (map fst) (h_entries t) [] i).
+    rewrite EQ in Hx.
+    apply in_map_iff in Hx. destruct Hx as ([k v] & E & HI). cbn in E. subst k.
+    destruct (H3 i Hi) as (_ & K). rewrite (K x v HI). lia.
+  - intros i Hi. rewrite map_length in Hi.
+    assert (EQ : nth i (map (map fst) (h_entries t)) [] = map fst (nth i (h_entries t) []))
+      by exact (map_nth (map fst) (h_entries t) [] i).
+    rewrite EQ. apply H3. exact Hi.
+Qed.
+
+Lemma nodupb_true : forall l, NoDup l -> nodupb l = true.
+Proof.
+  induction l as [|k r IH]; intro N; [reflexivity|].
+  inversion N as [|? ? N1 N2]; subst. cbn [nodupb]. rewrite IH by exact N2. rewrite andb_true_r.
+  apply negb_true_iff. destruct (existsb (xeq k) r) eqn:E; [|reflexivity].
+  apply existsb_exists in E. destruct E as (x & Hx & E). apply xeq_true_iff in E. subst. contradiction.
+Qed.
+
+Lemma assoc_in : forall l k v, NoDup (map fst l) -> In (k, v) l -> assoc k l = Some v.
+Proof.
+  induction l as [|[k' v'] l IH]; intros k v N H; [destruct H|].
+  cbn [map fst] in N. inversion N as [|? ? N1 N2]; subst.
+  cbn [assoc]. destruct H as [H|H].
+  - injection H as -> ->. rewrite xeq_refl. reflexivity.
+  - destruct (xeq k k') eqn:E.
+    + apply xeq_true_iff in E. subst. exfalso. apply N1. apply in_map_iff. exists (k', v). split; [reflexivity|exact H].
+    + apply IH; assumption.
+Qed.
+Lemma assoc_notin : forall l k, ~ In k (map fst l) -> assoc k l = None.
+Proof.
+  induction l as [|[k' v'] l IH]; intros k N; [reflexivity|].
+  cbn [assoc]. destruct (xeq k k') eqn:E.
+  - apply xeq_true_iff in E. subst. exfalso. apply N. left. reflexivity.
+  - apply IH. intro H. apply N. right. exact H.
+Qed.
+
+(* ---- the attribute part of a start tag ---- *)
+Definition kept (c : pctx) (kv : bstr * bstr) : bool := negb (elide_xmlns c (fst kv) (snd kv)).
+
+Lemma render_attrs_str : forall c h l,
+  (forall k v, In (k, v) l -> hash_get h k = Some v) ->
+  flat_map (attr_chunk c h) (map fst l) = flat_map attr_str (filter (kept c) l).
+Proof.
+  intros c h. induction l as [|[k v] l IH]; intro F; [reflexivity|].
+  cbn [map fst flat_map filter]. unfold attr_chunk at 1. rewrite (F k v (or_introl eq_refl)).
+  unfold kept at 1. cbn [fst snd].
+  rewrite IH by (intros k' v' HI; apply F; right; exact HI).
+  destruct (elide_xmlns c k v); cbn [negb]; [reflexivity|].
+  cbn [flat_map]. unfold attr_str at 1. cbn [fst snd]. rewrite fmt_attr_eq, escape_spec. reflexivity.
+Qed.
+
+Lemma elide_only_xmlns : forall c k v, elide_xmlns c k v = true -> k = xmlns_key.
+Proof.
+  intros c k v H. unfold elide_xmlns in H. destruct (beq k xmlns_key) eqn:E; [|discriminate].
+  apply beq_true_iff. exact E.
+Qed.
+
+Lemma filter_kept_canon : forall c l,
+  filter (fun kv => negb (xeq (fst kv) xmlns_name)) (filter (kept c) l)
+  = filter (fun kv => negb (xeq (fst kv) xmlns_name)) l.
+Proof.
+  intros c. induction l as [|[k v] l IH]; [reflexivity|].
+  cbn [filter]. unfold kept at 1. cbn [fst snd].
+  destruct (elide_xmlns c k v) eqn:E; cbn [negb].
+  - apply elide_only_xmlns in E. subst k.
+    replace xmlns_key with xmlns_name by (symmetry; apply Gen_stanza_ok).
+    rewrite xeq_refl. cbn [negb]. exact IH.
+  - cbn [filter fst]. rewrite IH. reflexivity.
+Qed.
+
+Definition ctx_ok (c : pctx) (dns : bstr) : Prop :=
+  match c with
+  | NoParent => dns = rfc_ns_client
+  | Parent (Some pv) => dns = pv
+  | Parent None => True
+  end.
+
+Lemma elide_means_inherited : forall c dns v, ctx_ok c dns -> elide_xmlns c xmlns_key v = true -> v = dns.
+Proof.
+  intros c dns v OK H. unfold elide_xmlns in H. rewrite beq_refl in H.
+  destruct c as [|[pv|]]; cbn in OK.
+  - apply beq_true_iff in H. subst. symmetry. apply Gen_stanza_ok.
+  - apply beq_true_iff in H. congruence.
+  - discriminate.
+Qed.
+
+Lemma assoc_kept : forall c dns a, attrs_ok a -> ctx_ok c dns ->
+  match assoc xmlns_name (filter (kept c) (attr_items a)) with Some v => v | None => dns end = own_ns a dns.
+Proof.
+  intros c dns a OK CO. unfold own_ns.
+  assert (X : xmlns_key = xmlns_name) by apply Gen_stanza_ok. rewrite <- X.
+  destruct a as [h|]; [|reflexivity]. cbn [attr_items attr_get]. cbn in OK.
+  pose proof (hash_keys_nodup h OK) as ND. unfold hash_keys in ND.
+  assert (NDf : NoDup (map fst (filter (kept c) (hash_items h)))).
+  { clear -ND. induction (hash_items h) as [|kv l IH]; [constructor|].
+    cbn [map] in ND. inversion ND as [|? ? N1 N2]; subst. cbn [filter].
+    destruct (kept c kv); [|apply IH; exact N2]. cbn [map]. constructor; [|apply IH; exact N2].
+    intro HI. apply N1. apply in_map_iff in HI. destruct HI as (x & E & HI). apply filter_In in HI.
+    apply in_map_iff. exists x. tauto. }
+  destruct (hash_get h xmlns_key) as [v|] eqn:F.
+  - apply hash_get_items in F; [|exact OK].
+    destruct (elide_xmlns c xmlns_key v) eqn:E.
+    + rewrite assoc_notin; [symmetry; apply (elide_means_inherited c dns v CO E)|].
+      intro HI. apply in_map_iff in HI. destruct HI as ([k' v'] & E1 & HI). cbn in E1. subst k'.
+      apply filter_In in HI. destruct HI as (HI & K). unfold kept in K. cbn [fst snd] in K.
+      assert (v' = v).
+      { apply hash_get_items in HI; [|exact OK]. apply hash_get_items in F; [|exact OK]. congruence. }
+      subst v'. rewrite E in K. discriminate.
+    + rewrite (assoc_in _ xmlns_key v NDf); [reflexivity|].
+      apply filter_In. split; [exact F|]. unfold kept. cbn [fst snd]. rewrite E. reflexivity.
+  - rewrite assoc_notin; [reflexivity|].
+    intro HI. apply in_map_iff in HI. destruct HI as ([k' v'] & E1 & HI). cbn in E1. subst k'.
+    apply filter_In in HI. destruct HI as (HI & _). apply hash_get_items in HI; [|exact OK]. congruence.
+Qed.
+
+Lemma kept_nodup : forall c a, attrs_ok a -> nodupb (map fst (filter (kept c) (attr_items a))) = true.
+Proof.
+  intros c [h|] OK; [|reflexivity]. cbn [attr_items]. apply nodupb_true.
+  pose proof (hash_keys_nodup h OK) as ND. unfold hash_keys in ND.
+  induction (hash_items h) as [|kv l IH]; [constructor|].
+  cbn [map] in ND. inversion ND as [|? ? N1 N2]; subst. cbn [filter].
+  destruct (kept c kv); [|apply IH; exact N2]. cbn [map]. constructor; [|apply IH; exact N2].
+  intro HI. apply N1. apply in_map_iff in HI. destruct HI as (x & E & HI). apply filter_In in HI.
+  apply in_map_iff. exists x. tauto.
+Qed.
+
+Lemma render_attrs_of : forall c a, attrs_ok a ->
+  match a with Some h => flat_map (attr_chunk c h) (hash_keys h) | None => [] end
+  = flat_map attr_str (filter (kept c) (attr_items a)).
+Proof.
+  intros c [h|] OK; [|reflexivity]. cbn [attr_items]. unfold hash_keys.
+  apply render_attrs_str. intros k v HI. apply hash_get_items; assumption.
+Qed.
+
+(* ---- elements and content ---- *)
+Lemma p_elem_S : forall f dns s1,
+  p_elem (S f) dns (60 :: s1) =
+  let (name, s2) := span name_byte s1 in
+  match name with
+  | [] => None
+  | _ :: _ =>
+      match p_attrs (S (length s2)) s2 with
+      | None => None
+      | Some (al, s3) =>
+          if negb (nodupb (map fst al)) then None else
+          let ns := match assoc xmlns_name al with Some v => v | None => dns end in
+          let al' := filter (fun kv => negb (xeq (fst kv) xmlns_name)) al in
+          match s3 with
+          | 47 :: 62 :: s4 => Some (XElem ns name al' [], s4)
+          | 62 :: s4 =>
+              match p_content f ns s4 with
+              | None => None
+              | Some (cs, s5) =>
+                  match s5 with
+                  | 60 :: 47 :: s6 =>
+                      let (name2, s7) := span name_byte s6 in
+                      if xeq name name2 then
+                        match snd (span is_ws s7) with
+                        | 62 :: s8 => Some (XElem ns name al' cs, s8)
+                        | _ => None
+                        end
+                      else None
+                  | _ => None
+                  end
+              end
+          | _ => None
+          end
+      end
+  end.
+Proof. reflexivity. Qed.
+
+Lemma p_content_S : forall f dns c r,
+  p_content (S f) dns (c :: r) =
+  if c =? 60 then
+    match r with
+    | [] => None
+    | c2 :: _ =>
+        if c2 =? 47 then Some ([], c :: r)
+        else match p_elem f dns (c :: r) with
+             | None => None
+             | Some (e, s1) =>
+                 match p_content f dns s1 with
+                 | None => None
+                 | Some (l, s2) => Some (e :: l, s2)
+                 end
+             end
+    end
+  else
+    let (raw, s1) := span (fun c => negb (c =? 60)) (c :: r) in
+    match unescape raw with
+    | None => None
+    | Some txt =>
+        match p_content f dns s1 with
+        | None => None
+        | Some (l, s2) => Some (XText txt :: l, s2)
+        end
+    end.
+Proof. reflexivity. Qed.
+
+Lemma attr_str_len : forall L, (length L <= length (flat_map attr_str L))%nat.
+Proof.
+  induction L as [|kv L IH]; [cbn; lia|].
+  cbn [flat_map length]. rewrite app_length. unfold attr_str at 1. cbn [length]. lia.
+Qed.
+
+Lemma stops_attrs : forall L c X, name_byte c = false -> stops name_byte (flat_map attr_str L ++ c :: X).
+Proof. intros [|kv L] c X H; cbn; [exact H|reflexivity]. Qed.
+
+Definition ns_of (L : list (bstr * bstr)) (dns : bstr) : bstr :=
+  match assoc xmlns_name L with Some v => v | None => dns end.
+Definition no_xmlns (L : list (bstr * bstr)) := filter (fun kv : bstr * bstr => negb (xeq (fst kv) xmlns_name)) L.
+
+Lemma p_elem_shape_empty : forall f dns name L rest,
+  good_name name -> (forall k v, In (k, v) L -> good_name k) -> nodupb (map fst L) = true ->
+  p_elem (S f) dns (60 :: name ++ flat_map attr_str L ++ 47 :: 62 :: rest)
+  = Some (XElem (ns_of L dns) name (no_xmlns L) [], rest).
+Proof.
+  intros f dns name L rest (NN & NF) GL ND.
+  rewrite p_elem_S.
+  rewrite (span_app_stop name_byte name); [|exact NF|apply stops_attrs; reflexivity].
+  destruct name as [|n0 nr]; [congruence|].
+  rewrite p_attrs_render; [|exact GL|exists 47, (62 :: rest); repeat split|].
+  2:{ rewrite app_length. pose proof (attr_str_len L). lia. }
+  cbv beta iota zeta. unfold bstr, xstr in *. rewrite ND. reflexivity.
+Qed.
+
+Lemma p_elem_shape_full : forall f dns name L X cs rest,
+  good_name name -> (forall k v, In (k, v) L -> good_name k) -> nodupb (map fst L) = true ->
+  p_content f (ns_of L dns) X = Some (cs, 60 :: 47 :: name ++ 62 :: rest) ->
+  p_elem (S f) dns (60 :: name ++ flat_map attr_str L ++ 62 :: X)
+  = Some (XElem (ns_of L dns) name (no_xmlns L) cs, rest).
+Proof.
+  intros f dns name L X cs rest (NN & NF) GL ND HC.
+  rewrite p_elem_S.
+  rewrite (span_app_stop name_byte name); [|exact NF|apply stops_attrs; reflexivity].
+  destruct name as [|n0 nr]; [congruence|].
+  rewrite p_attrs_render; [|exact GL|exists 62, X; repeat split|].
+  2:{ rewrite app_length. pose proof (attr_str_len L). lia. }
+  cbv beta iota zeta. unfold ns_of, no_xmlns in *. unfold bstr, xstr in *. rewrite ND. cbn [negb]. cbv beta iota zeta.
+  rewrite HC. cbv beta iota zeta.
+  rewrite (span_app_stop name_byte (n0 :: nr)); [|exact NF|reflexivity].
+  rewrite xeq_refl. reflexivity.
+Qed.
+
+Lemma xml_escape_nonempty : forall s, s <> [] -> exists c r, xml_escape s = c :: r /\ c <> 60.
+Proof.
+  intros [|a s] H; [congruence|]. rewrite xml_escape_cons.
+  destruct (xml_escape1_cases a) as [[-> ->]|[[-> ->]|[[-> ->]|[[-> ->]|(N1 & N2 & N3 & N4 & ->)]]]];
+    cbn [app ent_lt ent_gt ent_amp ent_quot]; eexists; eexists; (split; [reflexivity|]); try discriminate.
+  exact N1.
+Qed.
+
+Lemma p_content_end : forall f dns Z, p_content (S f) dns (60 :: 47 :: Z) = Some ([], 60 :: 47 :: Z).
+Proof. reflexivity. Qed.
+
+Lemma p_content_text : forall f dns acc X,
+  acc <> [] -> (exists X', X = 60 :: X') ->
+  p_content (S f) dns (xml_escape acc ++ X) =
+  match p_content f dns X with Some (l, s2) => Some (XText acc :: l, s2) | None => None end.
+Proof.
+  intros f dns acc X NA (X' & ->).
+  destruct (xml_escape_nonempty acc NA) as (c & r & E & NC).
+  destruct (escape_no_special acc) as (E1 & _). unfold c_lt in E1.
+  pose proof (has_false_forallb 60 _ E1) as FA.
+  rewrite E in *. cbn [app]. rewrite p_content_S.
+  destruct (c =? 60) eqn:C; [lia|].
+  rewrite app_comm_cons. rewrite (span_app_stop _ (c :: r)); [|exact FA|reflexivity].
+  rewrite <- E. rewrite unescape_escape. reflexivity.
+Qed.
+
+Lemma p_content_elem : forall f dns c2 Y, c2 <> 47 ->
+  p_content (S f) dns (60 :: c2 :: Y) =
+  match p_elem f dns (60 :: c2 :: Y) with
+  | None => None
+  | Some (e, s1) => match p_content f dns s1 with None => None | Some (l, s2) => Some (e :: l, s2) end
+  end.
+Proof.
+  intros. rewrite p_content_S. cbn [Z.eqb Pos.eqb]. destruct (c2 =? 47) eqn:E; [lia|]. reflexivity.
+Qed.
+
+Lemma name_byte_not_slash : forall c, name_byte c = true -> c <> 47.
+Proof. intros c H E. subst. cbn in H. discriminate. Qed.
+
+(* the text of an element, decomposed *)
+Lemma render_tag_eq : forall c name a cs, attrs_ok a ->
+  render c (Tag name a cs) =
+  60 :: name ++ flat_map attr_str (filter (kept c) (attr_items a)) ++
+  match cs with
+  | [] => [47; 62]
+  | _ :: _ => 62 :: flat_map (render (child_ctx a)) cs ++ 60 :: 47 :: name ++ [62]
+  end.
+Proof.
+  intros c name a cs OK. cbn [render]. rewrite fmt_open_eq, render_attrs_of by exact OK.
+  rewrite fmt_empty_eq, fmt_gt_eq, fmt_close_eq. cbn [app]. destruct cs; reflexivity.
+Qed.
+
+Definition elem_goal (t : tree) : Prop :=
+  match t with
+  | Tag _ _ _ =>
+      forall c dns rest fuel, ctx_ok c dns -> (length (render c t) <= fuel)%nat ->
+        p_elem fuel dns (render c t ++ rest) = Some (canon dns t, rest)
+  | _ => True
+  end.
+
+Lemma content_roundtrip : forall cctx ns cs,
+  ctx_ok cctx ns ->
+  Forall (fun t => rt_wf t -> elem_goal t) cs -> Forall rt_wf cs ->
+  forall acc f Zt,
+    (length (xml_escape acc) + length (flat_map (render cctx) cs) + 1 <= f)%nat ->
+    p_content f ns (xml_escape acc ++ flat_map (render cctx) cs ++ 60 :: 47 :: Zt)
+    = Some (canon_list (canon ns) cs acc, 60 :: 47 :: Zt).
+Proof.
+  intros cctx ns cs CO. induction cs as [|ch r IH]; intros HI HW acc f Zt HF.
+  - cbn [flat_map app canon_list]. destruct f as [|f]; [lia|].
+    destruct acc as [|a0 acc].
+    + cbn [xml_escape flat_map app flush]. apply p_content_end.
+    + rewrite p_content_text; [|discriminate|eexists; reflexivity].
+      cbn [flat_map length] in HF.
+      destruct f as [|f].
+      { exfalso. destruct (xml_escape_nonempty (a0 :: acc) ltac:(discriminate)) as (c0 & r0 & E & _).
+        rewrite E in HF. cbn [length] in HF. lia. }
+      rewrite p_content_end. reflexivity.
+  - inversion HI as [|? ? I1 I2]; subst. inversion HW as [|? ? W1 W2]; subst.
+    destruct ch as [|s|name a cs'].
+    + inversion W1.
+    + (* a text node joins the pending run *)
+      cbn [flat_map canon_list]. cbn [render]. rewrite fmt_text_eq, escape_spec.
+      rewrite <- app_assoc. rewrite app_assoc. rewrite <- xml_escape_app.
+      apply IH; [exact I2|exact W2|].
+      rewrite xml_escape_app, app_length. cbn [flat_map render] in HF.
+      rewrite fmt_text_eq, escape_spec, app_length in HF. lia.
+    + (* an element: flush the pending text, then the element, then the rest *)
+      cbn [flat_map canon_list]. rewrite <- app_assoc.
+      pose proof (I1 W1) as EG. cbn [elem_goal] in EG.
+      inversion W1 as [|? ? ? GN OA GK WC]; subst.
+      assert (HR : exists c2 Y, render cctx (Tag name a cs') = 60 :: c2 :: Y /\ c2 <> 47).
+      { rewrite render_tag_eq by exact OA. destruct (good_name_head name GN) as (n0 & nr & -> & NB).
+        cbn [app]. eexists; eexists; split; [reflexivity|]. apply name_byte_not_slash. exact NB. }
+      destruct HR as (c2 & Y & ER & N47).
+      cbn [flat_map] in HF. rewrite app_length in HF.
+      assert (LR : (2 <= length (render cctx (Tag name a cs')))%nat) by (rewrite ER; cbn [length]; lia).
+      assert (STEP : forall f', (length (render cctx (Tag name a cs')) + length (flat_map (render cctx) r) + 1 <= f')%nat ->
+                p_content f' ns (render cctx (Tag name a cs') ++ flat_map (render cctx) r ++ 60 :: 47 :: Zt)
+                = Some (canon ns (Tag name a cs') :: canon_list (canon ns) r [], 60 :: 47 :: Zt)).
+      { intros f' HF'. destruct f' as [|f']; [lia|].
+        rewrite ER. cbn [app]. rewrite p_content_elem by exact N47.
+        change (60 :: c2 :: Y ++ flat_map (render cctx) r ++ 60 :: 47 :: Zt)
+          with ((60 :: c2 :: Y) ++ flat_map (render cctx) r ++ 60 :: 47 :: Zt).
+        rewrite <- ER. rewrite EG; [|exact CO|lia].
+        pose proof (IH I2 W2 [] f' Zt) as IH0. cbn [xml_escape flat_map app length] in IH0.
+        rewrite IH0 by lia. reflexivity. }
+      destruct acc as [|a0 acc].
+      * cbn [xml_escape flat_map app flush]. apply STEP. cbn [xml_escape flat_map length] in HF. lia.
+      * destruct f as [|f]; [lia|].
+        rewrite p_content_text; [|discriminate|exists (c2 :: Y ++ flat_map (render cctx) r ++ 60 :: 47 :: Zt); rewrite ER; reflexivity].
+        rewrite STEP; [reflexivity|].
+        destruct (xml_escape_nonempty (a0 :: acc) ltac:(discriminate)) as (c0 & r0 & E & _).
+        rewrite E in HF. cbn [length] in HF. lia.
+Qed.
+
+Lemma elem_roundtrip : forall t, rt_wf t -> elem_goal t.
+Proof.
+  induction t as [|s|name a cs IH] using tree_ind2; intro W; [exact I|exact I|].
+  inversion W as [|? ? ? GN OA GK WC]; subst.
+  cbn [elem_goal]. intros c dns rest fuel CO HF.
+  rewrite render_tag_eq in * by exact OA.
+  set (L := filter (kept c) (attr_items a)) in *.
+  assert (GL : forall k v, In (k, v) L -> good_name k).
+  { intros k v HI. apply filter_In in HI. apply (GK k v). tauto. }
+  assert (ND : nodupb (map fst L) = true) by (apply kept_nodup; exact OA).
+  assert (NS : ns_of L dns = own_ns a dns) by (apply assoc_kept; assumption).
+  assert (CA : no_xmlns L = canon_attrs a) by (apply filter_kept_canon).
+  destruct fuel as [|f]; [cbn [length] in HF; lia|].
+  cbn [canon]. destruct cs as [|ch cs'].
+  - cbn [app]. rewrite <- !app_assoc. cbn [app].
+    rewrite p_elem_shape_empty by assumption. rewrite NS, CA. reflexivity.
+  - cbn [app]. rewrite <- !app_assoc. cbn [app]. rewrite <- !app_assoc. cbn [app].
+    rewrite (p_elem_shape_full f dns name L _ (canon_list (canon (own_ns a dns)) (ch :: cs') []) rest);
+      try assumption.
+    + rewrite NS, CA. reflexivity.
+    + rewrite NS.
+      pose proof (content_roundtrip (child_ctx a) (own_ns a dns) (ch :: cs')) as CR.
+      specialize (CR ltac:(unfold child_ctx, own_ns, ctx_ok; destruct (attr_get a xmlns_key); auto)).
+      specialize (CR IH WC [] f (name ++ 62 :: rest)).
+      cbn [xml_escape flat_map app length] in CR. rewrite <- app_assoc in CR.
+      cbn [flat_map]. rewrite <- !app_assoc. cbn [app].
+      apply CR.
+      cbn [length] in HF. rewrite !app_length in HF. cbn [length flat_map] in HF.
+      rewrite !app_length in HF. cbn [length] in HF. rewrite app_length. lia.
+Qed.
+
+Lemma render_parse_roundtrip_proof : forall name a cs, rt_wf (Tag name a cs) ->
+  spec_parse rfc_ns_client (render NoParent (Tag name a cs)) = Some (canon rfc_ns_client (Tag name a cs)).
+Proof.
+  intros name a cs W. unfold spec_parse.
+  pose proof (elem_roundtrip _ W) as EG. cbn [elem_goal] in EG.
+  specialize (EG NoParent rfc_ns_client [] (S (length (render NoParent (Tag name a cs)))) eq_refl ltac:(lia)).
+  rewrite app_nil_r in EG. rewrite EG. reflexivity.
+Qed.
+
+(* rendered to text by xmpp_stanza_to_text and read back *)
+Lemma to_text_parse_roundtrip_proof : forall name a cs,
+  rt_wf (Tag name a cs) -> renderable (Tag name a cs) ->
+  nul_free (render NoParent (Tag name a cs)) -> zlen (render NoParent (Tag name a cs)) < 2147483648 ->
+  exists buf len s,
+    to_text NoParent (Tag name a cs) = TOk buf len /\ cstring buf = Some s /\ len = zlen s /\
+    spec_parse rfc_ns_client s = Some (canon rfc_ns_client (Tag name a cs)).
+Proof.
+  intros name a cs W R NF HL.
+  destruct (to_text_correct NoParent _ R HL) as (rest & E & _).
+  eexists; eexists; exists (render NoParent (Tag name a cs)). split; [exact E|].
+  split; [apply cstring_prefix; exact NF|]. split; [reflexivity|].
+  apply render_parse_roundtrip_proof. exact W.
+Qed.
+
+(* ==================================================================================== *)
+(* G. the hypotheses are satisfiable; sanity evaluations                                 *)
+(* ==================================================================================== *)
+Definition ex_attrs : attrs := attr_set (attr_set (attr_set None [107] [34; 60]) xmlns_key [117; 58; 120]) [105; 100] [49].
+Definition ex_tree : tree :=
+  Tag [109; 115; 103] ex_attrs [Text [104; 38]; Text []; Tag [98] (attr_set None xmlns_key [117; 58; 120]) []; Text [62]].
+
+Example ex_attrs_ok : attrs_ok ex_attrs.
+Proof. unfold ex_attrs. repeat apply attr_set_ok. exact I. Qed.
+
+Ltac solve_nf := let H := fresh "H" in intro H; vm_compute in H; repeat (destruct H as [H|H]; [discriminate H|]); destruct H.
+
+Example ex_nul_free : nul_free [104; 38].
+Proof. intros [H|[H|[]]]; discriminate. Qed.
+
+Example ex_tree_wf : tree_wf ex_tree.
+Proof.
+  unfold ex_tree. constructor; [exact ex_attrs_ok|].
+  constructor; [constructor|]. constructor; [constructor|].
+  constructor; [constructor; [apply attr_set_ok; exact I|constructor]|].
+  constructor; [constructor|constructor].
+Qed.
+
+Lemma ex_found : forall a, attrs_ok a ->
+  (forall k v, In (k, v) (attr_items a) -> nul_free v) -> attrs_renderable a.
+Proof.
+  intros [h|] OK NF; [|exact I]. intros k HI.
+  apply hash_keys_found in HI; [|exact OK]. destruct HI as (v & F). exists v. split; [exact F|].
+  apply (NF k v). apply hash_get_items; assumption.
+Qed.
+
+Example ex_renderable : renderable ex_tree.
+Proof.
+  unfold ex_tree. constructor.
+  - apply ex_found; [exact ex_attrs_ok|]. intros k v HI. vm_compute in HI.
+    repeat (destruct HI as [HI|HI]; [injection HI as <- <-; solve_nf|]). destruct HI.
+  - constructor; [constructor; solve_nf|].
+    constructor; [constructor; solve_nf|].
+    constructor.
+    + constructor; [|constructor]. apply ex_found; [apply attr_set_ok; exact I|].
+      intros k v HI. vm_compute in HI.
+      repeat (destruct HI as [HI|HI]; [injection HI as <- <-; solve_nf|]). destruct HI.
+    + constructor; [constructor; solve_nf|constructor].
+Qed.
+
+Example ex_rt_wf : rt_wf ex_tree.
+Proof.
+  unfold ex_tree. constructor.
+  - split; [discriminate|reflexivity].
+  - exact ex_attrs_ok.
+  - intros k v HI. vm_compute in HI.
+    repeat (destruct HI as [HI|HI]; [injection HI as <- <-; split; [discriminate|reflexivity]|]). destruct HI.
+  - constructor; [constructor|]. constructor; [constructor|].
+    constructor; [|constructor; [constructor|constructor]].
+    constructor; [split; [discriminate|reflexivity]|apply attr_set_ok; exact I| |constructor].
+    intros k v HI. vm_compute in HI.
+    repeat (destruct HI as [HI|HI]; [injection HI as <- <-; split; [discriminate|reflexivity]|]). destruct HI.
+Qed.
+
+Example ex_render_short : zlen (render NoParent ex_tree) < 2147483648.
+Proof. vm_compute. reflexivity. Qed.
+
+Example ex_reply_hyp : attrs_ok (attr_set None k_from [97]) /\ attr_get (attr_set None k_from [97]) k_from = Some [97].
+Proof. split; [apply attr_set_ok; exact I|vm_compute; reflexivity]. Qed.
+
+(* the example, evaluated: text, parse, and the two-pass renderer on it *)
+Example ex_eval :
+  spec_parse rfc_ns_client (render NoParent ex_tree) = Some (canon rfc_ns_client ex_tree) /\
+  (exists buf, to_text NoParent ex_tree = TOk buf (zlen (render NoParent ex_tree)) /\ cstring buf = Some (render NoParent ex_tree)).
+Proof.
+  split; [vm_compute; reflexivity|].
+  eexists. split; vm_compute; reflexivity.
+Qed.
+
+Lemma attr_table_map_proof :
+  forall a k v, attrs_ok a ->
+    attrs_ok (attr_set a k v) /\ attrs_ok (fst (attr_del a k)) /\
+    (forall k', attr_get (attr_set a k v) k' = if beq k' k then Some v else attr_get a k') /\
+    (forall k', attr_get (fst (attr_del a k)) k' = if beq k' k then None else attr_get a k') /\
+    match a with
+    | Some h => NoDup (hash_keys h) /\ forall k', In k' (hash_keys h) <-> exists v', hash_get h k' = Some v'
+    | None => True
+    end.
+Proof.
+  intros a k v OK. split; [apply attr_set_ok; exact OK|]. split; [apply attr_del_ok; exact OK|].
+  split; [intro; apply attr_get_set; exact OK|]. split; [intro; apply attr_get_del; exact OK|].
+  destruct a as [h|]; [|exact I]. split; [apply hash_keys_nodup; exact OK|]. intro. apply hash_keys_found. exact OK.
+Qed.
+
+Lemma roundtrip_in_context_proof :
+  forall name a cs c dns rest fuel, rt_wf (Tag name a cs) -> ctx_ok c dns ->
+    (length (render c (Tag name a cs)) <= fuel)%nat ->
+    p_elem fuel dns (render c (Tag name a cs) ++ rest) = Some (canon dns (Tag name a cs), rest).
+Proof. intros name a cs c dns rest fuel W. exact (elem_roundtrip _ W c dns rest fuel). Qed.
